@@ -58,6 +58,8 @@ def panel_spec(draw, max_geos=6, min_geos=1, max_dates=30, flat=False):
       'offset': 0 if near else draw(st.sampled_from([0, 0, 0, 0, 2 ** 24, 2 ** 26])),
       # readings stamped at noon instead of midnight
       'hour': draw(st.sampled_from([0, 0, 0, 12])),
+      # date column as a pandas categorical that also declares two later dates without rows (a frame cut at a cutoff date)
+      'date_cat': draw(st.integers(0, 7)) == 0,
       # response column in a pandas nullable dtype
       'resp_dtype': draw(st.sampled_from([None, None, None, None, None, None, 'Float64', 'Int64'])),
       # the whole panel in another unit (per-mille shares ... micro-currency): exact powers of two
@@ -153,6 +155,11 @@ def search_spec(draw, max_geos=6, min_geos=1, constraint_p=0.5, allow_budget=Tru
   elig = draw(eligibility_spec(panel['ids'], elig_style))
   params = draw(params_spec(panel['n_test'], panel['n_dates'], len(panel['ids']), constraint_p, allow_budget, allow_share, degenerate,
                             tight_sizes))
+  if len(panel['ids']) >= 2 and panel['n_dates'] >= 8 and draw(st.integers(0, 5)) == 0:
+    # a geo that entered the panel late: no rows (or rows with a missing value) for the first third of the dates
+    g = draw(st.integers(0, len(panel['ids']) - 1))
+    panel['missing'] = [[g, d] for d in range(panel['n_dates'] // 3)]
+    panel['missing_as_nan'] = draw(st.booleans())
   history = draw(st.sampled_from([None, None, 'shared-data', 'reused-data', 'other-search-first', 'params-mutated', 'shared-eligibility']))
   if history == 'shared-data' and params['n_geos_max'] is None and len(panel['ids']) >= 3 and draw(st.booleans()):
     # the measured searcher is capped, the other one on the same data object is not (its geo list is a superset)
